@@ -2,7 +2,11 @@
 
 package parser
 
-import "github.com/DDP-Projekt/Kompilierer/src/ast"
+import (
+	"fmt"
+
+	"github.com/DDP-Projekt/Kompilierer/src/ast"
+)
 
 // Observation points for the verification harness (build tag verif only).
 // VerifHook, when set, receives one event per loop iteration / protocol step of the parser.
@@ -52,7 +56,9 @@ func verifInst(kind string, genericFunc *ast.FuncDecl, module *ast.Module, decl 
 	for _, inst := range genericFunc.Generic.Instantiations[module] {
 		cache = append(cache, verifInstKey(inst))
 	}
-	VerifInstHook(kind, genericFunc.Name(), module.FileName, verifInstKey(decl), nerr, cache)
+	// two declarations may share a name (the second is reported as an error, but exists): the position tells them apart
+	fn := fmt.Sprintf("%s@%d:%d", genericFunc.Name(), genericFunc.NameTok.Range.Start.Line, genericFunc.NameTok.Range.Start.Column)
+	VerifInstHook(kind, fn, module.FileName, verifInstKey(decl), nerr, cache)
 }
 
 // forget all parser identities (called by the harness between inputs)
